@@ -197,7 +197,9 @@ pub fn exec_c03(plan: &C03Plan, st: &mut Stats) -> Option<Violation> {
                         st.inc("truncated_picture_rejected");
                     }
                     Outcome::Ok => {
-                        let snap = snap_last(&slot.state)?;
+                        let Some(snap) = snap_last(&slot.state) else {
+                            return viol("no decoded picture after a successful decode", what);
+                        };
                         st.h(snap.digest());
                         let refd = if needs_ref { reference.as_ref() } else { None };
                         let mut pr = Probes::default();
